@@ -118,9 +118,27 @@ def check(prop, mod, a, seed, t0):
     gen_s = time.time() - t0
     obs = eng.obligations
     solve.discharge(eng, obs)
-    solve_s = sum(ob.time for ob in obs)
     # --- anti-vacuity: statement coverage over path ends that are not provably infeasible
     cover = solve.cover_check(eng)
+    # --- sub-engines: targets that need a different model of the same classes (e.g. the tokenizer at character level next to
+    # the parser that uses it through a ghost token stream) run in an engine of their own - own schema, own axioms - and their
+    # obligations, targets and coverage are merged into the report
+    for sub_cls, sub_build in getattr(mod, "SUB_ENGINES", []):
+        sub = sub_cls(prop)
+        sub_build(sub, a.tier)
+        if a.only:
+            sub.targets = [t for t in sub.targets if a.only in t.name]
+        sub.run()
+        solve.discharge(sub, sub.obligations)
+        cover.update(solve.cover_check(sub))
+        eng.targets = list(eng.targets) + list(sub.targets)
+        eng.obligations.extend(sub.obligations)
+        eng.unsupported.update(sub.unsupported)
+        eng.target_results.update(sub.target_results)
+        eng.functions_under_contract.update(sub.functions_under_contract)
+        eng.assumptions_used |= set(sub.assumptions_used)
+    gen_s = time.time() - t0
+    solve_s = sum(ob.time for ob in obs)
     unreached = {}
     for t in eng.targets:
         if t.name in eng.unsupported or not hasattr(t, "_stmt_lines"):
